@@ -15,3 +15,18 @@ def gen_conn_state():
     body += f"def connectionAliveTime : Nat := {int(const.CONNECTION_ALIVE_TIME)}\n"
     body += "end XknxVerif.Generated.ConnState\n"
     return body
+
+
+@section("CemiCodes")
+def gen_cemi_codes():
+    from xknx.cemi import cemi_handler
+    from xknx.cemi.const import CEMIMessageCode
+
+    body = "namespace XknxVerif.Generated.CemiCodes\n"
+    rows = [f"({lean_str(n)}, {m.value})" for n, m in CEMIMessageCode.__members__.items()]
+    body += f"def members : List (String × Nat) := {lean_list(rows)}\n"
+    for n, m in CEMIMessageCode.__members__.items():
+        body += f"def {n.lower()} : Nat := {m.value}\n"
+    body += f"def requestToConfirmationTimeout : Nat := {int(cemi_handler.REQUEST_TO_CONFIRMATION_TIMEOUT)}\n"
+    body += "end XknxVerif.Generated.CemiCodes\n"
+    return body
